@@ -442,9 +442,11 @@ def check_C32(ctx):
         "descriptor_rows_enumerated_by_tlc": len(rows), "events_judged_by_tlc": judged, "results_produced": okc,
         "tlc_judge_chunks": nchunks, "events_per_type_op": per,
     }, assumptions=[
-        "metered = sum of MemoryKindBigInt usages reported to the gauge during the value method call; size of the result = len(big.Int.Bits()) * 8",
-        "operand sizes are bounded (quick: 0..8 words; thorough: 0..16 and around the 40- and 100-word thresholds of the estimates), "
-        "shift amounts 0..4096 bits (quick: thinned)",
+        "metered = sum of MemoryKindBigInt usages reported to the gauge during the value method call; the size of the result is derived by the "
+        "specification: from the exact result (recomputed with Bignum for and/or/xor/+/-/unary minus and short products of Int/UInt, logged otherwise) or, "
+        "for shifts, from the operand's bit length and the amount; the driver's len(big.Int.Bits()) must agree",
+        "operand sizes are bounded and asymmetric: quick 0..3, 7, 8, 11, 12, 21, 40 words; thorough 0..16, 21, 39-42, 99-101 words "
+        "(every pair of sizes, every sign combination, all-ones / single-bit / random patterns); shift amounts 0..4096 bits (quick: thinned)",
         "random operands are seeded by VERIF_SEED; the size classes and boundary values are exhaustive within the bound",
     ])
 
